@@ -12,8 +12,8 @@ def cut(s, n):
     return s if len(s) <= n else s[: n - 1] + "…"
 
 
-print("| Seeded change | Property | Needs | Suite passes / demo fails with / passes without | Caught by (quick checks) | First witness of the property's own check |")
-print("|---|---|---|---|---|---|")
+print("| Seeded change | Property | Needs | Suite passes / demo fails with / passes without | Caught by (quick checks, final state) | Round 3 only: caught by, as the checks stood when the change arrived | First witness of the property's own check |")
+print("|---|---|---|---|---|---|---|")
 for d in sorted(glob.glob(os.path.join(V, "seeded", "*"))):
     mp = os.path.join(d, "meta.json")
     if not os.path.exists(mp):
@@ -22,10 +22,15 @@ for d in sorted(glob.glob(os.path.join(V, "seeded", "*"))):
     v = m.get("verified", {})
     own = m["checks"].get(m["property"], {})
     wit = own.get("violations", [""])
-    print("| `%s` | %s | %s | %s / %s / %s | %s | %s |" % (
+    asis = ""
+    ap = os.path.join(d, "meta.asis.json")
+    if os.path.exists(ap) and os.path.basename(d)[3:4] == "c":
+        a = json.load(open(ap))
+        asis = ", ".join(a.get("caught_by", [])) or "**none**"
+    print("| `%s` | %s | %s | %s / %s / %s | %s | %s | %s |" % (
         os.path.basename(d), m["property"], cut(m.get("needs"), 150),
         "yes" if v.get("suite_passes_with_change") else "NO", "yes" if v.get("demo_fails_with_change") else "NO", "yes" if v.get("demo_passes_without_change") else "NO",
-        ", ".join(m.get("caught_by", [])) or "**none**", cut((wit[0] if wit else "").split(" :: ")[0], 90)))
+        ", ".join(m.get("caught_by", [])) or "**none**", asis, cut((wit[0] if wit else "").split(" :: ")[0], 90)))
 
 rp = os.path.join(V, "mutants", "RESULTS.json")
 if os.path.exists(rp):
